@@ -88,6 +88,8 @@ type SendRule struct {
 	release chan struct{}
 	used    bool
 	relOnce sync.Once
+	// After, if set, runs in the parked goroutine right after its release.
+	After func()
 }
 
 // WaitReached waits until a goroutine is parked at the rule.
@@ -139,6 +141,9 @@ func (c *SendCtl) Hook(name string, args ...interface{}) {
 	if hit != nil {
 		hit.reached <- &ev
 		<-hit.release
+		if hit.After != nil {
+			hit.After()
+		}
 	}
 }
 
